@@ -167,7 +167,7 @@ def dendroArgs? (kv : KV) : Option DendroArgs := do
          colors := ← fld kv "colors" strList? standardColors, reorder := ← fld kv "reorder" bool? false }
 
 /-- every number is printed as `#` -/
-def νhash : Nums := fun _ _ _ => [35]
+def νhash : Nums := { tok := fun _ _ _ => [35] }
 
 def showDoc (d : PyStr) : String := if d.isEmpty then "-" else ",".intercalate (d.map toString)
 
